@@ -1511,6 +1511,8 @@ class C20(core.Check):
                 return f"{case['name']}{case['r']}{case['s']}: documented precondition: harness {ok}, model {parts[1]}"
             if len(model) > 1:  # the guards as regenerated from the source, evaluated by the model on the same arguments
                 g = model[1].split(" ")
+                if g[0] == "untranslatable":  # the translator could not read this entry point: reported by the table generation
+                    return None
                 if len(g) != 2 or not (g[0] == "accept" or g[0].startswith("reject:")):
                     return f"unparsable answer of c20.guards {model[1]!r}"
                 label = f"{case['name']}{case['r']}{case['s']}"
